@@ -187,6 +187,14 @@ class Untracked:
         return '<untracked>'
 
 
+class Enumerated:
+    """enumerate(seq, start) over a symbolic sequence (only iterated by a cut loop)."""
+
+    def __init__(self, seq, start=0):
+        self.seq = seq
+        self.start = start
+
+
 class MapItems:
     """m.items() / m.values() / m.keys() of a SymMap (iteration order not observable)."""
 
